@@ -160,3 +160,14 @@ claim("C08", SM,
       "widths 1..256) with repr->parse, pickle, deepcopy, copy, replace-nothing and visit round-trips are validated by TLC.",
       "TLC; textual and pickle formats are not modelled (round-trips are identity events); CPython object identity of live objects",
       "DESIGN.md 5/C08", "Intern")
+
+claim("C13", SM,
+      "SymbMem.tla: cells (base, offset mod 2^addrsize) hold byte terms (byte k of an opaque value, a constant byte, the original "
+      "content of a cell); untouched cells hold their own original content, so deleting and writing the original back coincide; "
+      "actions Write (opaque values, constants, copies of original memory), Read, Delete (KeyError unless wholly stored), "
+      "DeletePartial, Contains, ExportImport (get_state -> fresh engine -> set_state). TLC checks TypeOK / WriteLocal / ReadPure, "
+      "every (state, operation) to depth 2 (quick) / 3 over 2 bases and offsets around 0 and 2^16 is replayed on "
+      "SymbolicExecutionEngine.symbols (every cell re-read byte by byte, multi-byte reads decomposed into byte terms), longer "
+      "simulated behaviours are replayed and recorded random histories are validated by TLC.",
+      "TLC; 16-bit address size; byte-aligned accesses; structural decomposition of read results into byte terms by the harness",
+      "DESIGN.md 5/C13, B.6", "SymbMem")
